@@ -3688,6 +3688,10 @@ class CacheDataset(Dataset):
             item = self.keys().index(item)
 
         if isinstance(item, numbers.Integral):
+            # Use one cache entry per example: A numpy integer (e.g. from a
+            # slice, a shuffle or a sort of the cached dataset) and the
+            # builtin int are different keys for the disk cache.
+            item = int(item)
             if item < 0:
                 # Use one cache entry per example: ds[-1] and ds[len(ds) - 1]
                 # are the same example.
